@@ -43,6 +43,9 @@ Proof. destruct a, b; simpl; intros; subst; reflexivity. Qed.
 
 Ltac csolve := intros; apply Ceq_pair; unfold Cadd, Cmul, Csub, Copp, Cconj, C0, C1, Ci, Cm1, Cscal, qz; simpl; try ring.
 
+(* closed equalities of Gaussian rationals, by computation on the underlying fractions *)
+Ltac ceq := apply Ceq_pair; apply Qc_is_canon; vm_compute; reflexivity.
+
 Lemma C_ring : ring_theory C0 C1 Cadd Cmul Csub Copp (@eq C).
 Proof.
   constructor; try (intros; apply Ceq_pair; unfold Cadd, Cmul, Csub, Copp, C0, C1, qz; simpl; ring).
